@@ -68,7 +68,7 @@ def rpoly(rng, p, maxlen, kind=None):
 
 
 def plist(poly, x):
-    return [int(c) for c in poly._to_list(x.value)]
+    return [int(c) for c in poly._to_list(x)]
 
 
 def ints(l):
@@ -83,6 +83,8 @@ def run_case(case):
     rng = random.Random(case['seed'])
     poly = gfpx.GFpX(p)
     maxlen = 4 if p == 11 else 8
+    if group == 'irreducible':
+        maxlen = 3 if p > 101 else 4   # D//2 modular powers X^(p^i) mod a: 31 squarings + secure divisions each for p = 2^31-1
     res = {'case': case, 'status': 'ok', 'lean': [], 'ops': [], 'tags': []}
 
     # ---- inputs ---------------------------------------------------------------------------------
@@ -97,6 +99,8 @@ def run_case(case):
         A = plist(poly, (poly(A) * poly(C)))[:maxlen]
         B = plist(poly, (poly(B) * poly(C)))[:maxlen]
         A, B = plist(poly, poly(A)), plist(poly, poly(B))
+    if group == 'gcd' and not A and not B:    # gcd(0, 0) / gcdext(0, 0) with positive length never terminate (monic of 0), see report
+        A = rpoly(rng, p, maxlen, 'rand')
     if group == 'cmp' and rng.random() < 0.3:
         B = list(A)
         if B and rng.random() < 0.5:
@@ -112,11 +116,22 @@ def run_case(case):
     slA, slB = rng.randint(0, 3), rng.randint(0, 3)
     if p == 11:
         slA, slB = min(slA, 5 - len(A)), min(slB, 5 - len(B))
+    if group == 'irreducible':   # keep (len-1)//2 < deg a (finding secpoly_is_irreducible_slack)
+        while not A:             # zero polynomial of length >= 2: AssertionError in _div (division by the zero polynomial), see report
+            A = rpoly(rng, p, maxlen)
+        if len(A) == 1:
+            slA = min(slA, 1)
+        slA = max(0, min(slA, len(A) - 2)) if len(A) >= 2 else slA
     PA, PB = A + [0] * slA, B + [0] * slB        # padded
     a, b = poly(A), poly(B)
     n1, n2 = rng.randint(0, 4), rng.randint(0, 4)
     x0 = rng.randrange(p)
-    e0 = rng.choice([0, 1, 2, 3, 5, -1, -2])
+    xs = rng.randrange(p)
+    # every random choice is drawn HERE (plan() runs once per party and must not consume randomness)
+    d_rev = rng.randint(-1, len(PA) + 2)
+    ds_rev = rng.randint(-1, len(PA) - 1) if len(PA) >= 1 else None
+    k_pow = rng.choice([0, 1, 2, 3]) if len(PA) * 3 <= 20 else 1
+    c_sel = rng.randint(0, 1)
     res['key'] = (group, p, tuple(PA), tuple(PB))
     res['nontrivial'] = len(A) >= 2 or len(B) >= 2
     res['program'] = f'group {group} over GF({p}): a = {PA}, b = {PB}'
@@ -140,7 +155,6 @@ def run_case(case):
             add('a+pub(b)', f + b, a + b)
             add('pub(a)-b', a - g, a - b)
             add('a*pub(b)', f * b, a * b)
-            add('a+int', f + 3, a + 3)
             add('copy', f.copy(), a)
             add('add()', secpoly.add(f, g), a + b)
             add('sub()', secpoly.sub(g, f), b - a)
@@ -155,14 +169,15 @@ def run_case(case):
             add('(a<<n)>>n', (f << n1) >> n1, a)
         elif group == 'degree':
             add('degree', f.degree(), a.degree(), ('pdeg', PA))
-            add('monic', f.monic(), a.monic())
+            if A:    # monic() of a zero polynomial of positive length never terminates (1/0 in np_reciprocal), see report
+                add('monic', f.monic(), a.monic())
             if len(PA) + len(PB) <= p:
                 add('degree(a*b)', (f * g).degree(), (a * b).degree())
             add('reverse()', f.reverse(), a.reverse())
-            d = rng.randint(-1, len(PA) + 2)
+            d = d_rev
             add(f'reverse({d})', f.reverse(d), a.reverse(d))
             if len(PA) >= 1:
-                ds = rng.randint(-1, len(PA) - 1)
+                ds = ds_rev
                 if ds >= 0:
                     add(f'reverse(secret {ds})', f.reverse(S(ds)), a.reverse(ds))
                 else:
@@ -185,12 +200,13 @@ def run_case(case):
             ee = poly.gcdext(a, b)
             add('gcdext.d', ge[0], ee[0])
             add('gcdext.bezout', ge[1] * f + ge[2] * g, ee[0])
-            add('gcdext.s', ge[1], ee[1])
-            add('gcdext.t', ge[2], ee[2])
+            if ee[0] == 1:   # cofactors are only unique (and equal to gfpx's) for coprime inputs: finding secpoly_gcdext_cofactors_differ
+                add('gcdext.s', ge[1], ee[1])
+                add('gcdext.t', ge[2], ee[2])
         elif group == 'invpow':
             add('invert', secpoly.invert(f, g), poly.invert(a, b))
             add(f'powmod({e0})', secpoly.powmod(f, e0, g), poly.powmod(a, e0, b))
-            k = rng.choice([0, 1, 2, 3]) if len(PA) * 3 <= 20 else 1
+            k = k_pow
             add(f'a**{k}', f ** k, a ** k)
         elif group == 'cmp':
             add('a<b', f < g, int(a < b), ('plt', PA, PB))
@@ -203,11 +219,11 @@ def run_case(case):
             add('a<pub(b)', f < b, int(a < b))
         elif group == 'eval':
             add('a(x)', f(x0), a(x0), ('peval', PA, x0))
-            add('a(secret x)', f(S(x0)), a(x0))
+            add('a(secret x)', f(S(xs)), a(xs))
             add('a(-2)', f(-2), a(-2), ('peval', PA, -2))
             add('b(x)', g(x0), b(x0), ('peval', PB, x0))
         elif group == 'select':
-            c = rng.randint(0, 1)
+            c = c_sel
             add(f'if_else({c})', secpoly.if_else(S(c), f, g), a if c else b)
             sw = secpoly.if_swap(S(c), f, g)
             add(f'if_swap({c})[0]', sw[0], b if c else a)
@@ -300,9 +316,73 @@ def fail(res, failure, detail, expected=None, observed=None, op=None):
 
 def _worker(case):
     try:
+        if case.get('directed'):
+            return run_directed(case)
         return run_case(case)
     except BaseException as exc:  # noqa
         return {'case': case, 'status': 'infra', 'detail': traceback.format_exc()[-1800:], 'lean': [], 'ops': []}
+
+
+DIRECTED = {
+    'getitem_beyond': (None, 11),                    # fixed in 8389ac8, kept as regression input
+    'gcdext_noncoprime': ('secpoly_gcdext_cofactors_differ', 11),
+    'eval_public_overflow': (None, 2**31 - 1),       # fixed in 8389ac8, kept as regression input
+    'irreducible_slack': ('secpoly_is_irreducible_slack', 11),
+    'zero_monic': ('secpoly_zero_monic_gcd_hang', 11),
+    'zero_irreducible': ('secpoly_is_irreducible_zero_crash', 11),
+}
+
+
+def run_directed(case):
+    """one fixed input per open finding (regression test once fixed)"""
+    simnet, np, gfpx, secpols = _imports()
+    from simnet import SimNet, Deadlock, PartyError
+    secpoly = secpols.secpoly
+    name = case['directed']
+    key, p = DIRECTED[name]
+    poly = gfpx.GFpX(p)
+    res = {'case': case, 'status': 'ok', 'lean': [], 'ops': ['directed:' + name], 'tags': [], 'key': ('directed', name),
+           'nontrivial': True}
+
+    def body(mpc):
+        S = mpc.SecFld(p)
+        if name == 'getitem_beyond':
+            return secpoly(np.array([1, 2]), sectype=S)[5], 0, 'secpoly([1,2])[5] over GF(11)'
+        if name == 'gcdext_noncoprime':
+            a, b = poly([2, 3, 1]), poly([3, 3, 1, 1])
+            return list(secpoly.gcdext(secpoly(a, sectype=S), secpoly(b, sectype=S))), list(poly.gcdext(a, b)), \
+                'secpoly.gcdext(x^2+3x+2, x^3+x^2+3x+3) over GF(11)'
+        if name == 'eval_public_overflow':
+            c = poly([1, 2, 3, 4, 5])
+            return secpoly(c, sectype=S)(2000000000), c(2000000000), 'secpoly(1+2x+3x^2+4x^3+5x^4)(2000000000) over GF(2^31-1)'
+        if name == 'zero_monic':
+            return secpoly(np.array([0, 0]), sectype=S).monic(), poly(0), 'secpoly([0,0]).monic() over GF(11)'
+        if name == 'zero_irreducible':
+            return secpoly.is_irreducible(secpoly(np.array([0, 0, 0]), sectype=S)), 0, 'secpoly.is_irreducible(secpoly([0,0,0])) over GF(11)'
+        return secpoly.is_irreducible(secpoly(np.array([1, 0, 1, 0, 0]), sectype=S)), 1, \
+            'secpoly.is_irreducible(secpoly([1,0,1,0,0])) over GF(11)  (x^2+1 with two slack zeros)'
+    box = {}
+
+    async def prog(mpc):
+        obj, exp, desc = body(mpc)
+        box['exp'], box['desc'] = exp, desc
+        return await mpc.output(obj)
+    res['program'] = name
+    try:
+        out = SimNet(case['m'], None, no_prss=case['no_prss'], seed=case['seed'] & 0xffff, max_steps=300_000).run(prog)[0]
+    except (Deadlock, PartyError) as exc:
+        r = fail(res, 'crash', f"{box.get('desc', name)}: {str(exc)[:400]}")
+        if key:
+            r['finding_key'] = key
+        return r
+    exp = box['exp']
+    ok = (int(out) == exp % p) if isinstance(exp, int) else (out == exp if isinstance(exp, gfpx.Polynomial) else list(out) == exp)
+    if not ok:
+        r = fail(res, 'gfpx', f"{box['desc']}: opened {out!r}, gfpx gives {exp!r}", expected=repr(exp), observed=repr(out))
+        if key:
+            r['finding_key'] = key
+        return r
+    return res
 
 
 def make_cases(ctx, extra):
@@ -313,6 +393,8 @@ def make_cases(ctx, extra):
             for (m, np_) in CONFIGS:
                 for _ in range(ctx.scale(1, 3)):
                     cases.append({'group': group, 'p': p, 'm': m, 'no_prss': np_, 'seed': rng.randrange(1 << 30)})
+    for name in sorted(DIRECTED):
+        cases.append({'directed': name, 'group': 'directed', 'p': DIRECTED[name][1], 'm': 3, 'no_prss': False, 'seed': 1})
     for _ in range(extra):
         m, np_ = rng.choice(CONFIGS + [(3, False), (3, True)])
         cases.append({'group': rng.choice(GROUPS), 'p': rng.choice(PRIMES), 'm': m, 'no_prss': np_, 'seed': rng.randrange(1 << 30)})
@@ -368,7 +450,7 @@ def search(ctx):
 
 
 def replay(ctx, data):
-    case = {k: data[k] for k in ('group', 'p', 'm', 'no_prss', 'seed')}
+    case = {k: data[k] for k in ('group', 'p', 'm', 'no_prss', 'seed', 'directed') if k in data}
     res = _worker(case)
     if res['status'] == 'ok':
         return True, 'ok'
